@@ -54,6 +54,10 @@ CheckState(k) ==
      /\ T(ob.as_dict) = AsDict(t) \/ Say("state", k, "as_dict")
      /\ T(ob.n2d) = AsDict(t) \/ Say("state", k, "namespace_to_dict")
      /\ T(ob.d2n) = DictToNamespace(AsDict(t)) \/ Say("state", k, "dict_to_namespace")
+     \* Ref-level laws on what was observed: as_dict leaves no Namespace behind (below converted nodes), and a plain
+     \* dictionary comes back unchanged from dict_to_namespace followed by as_dict
+     /\ (\A q \in DOMAIN t : Conv(t, q) => (q \in DOMAIN T(ob.as_dict) /\ T(ob.as_dict)[q] # "ns" /\ ~HoldsNS(T(ob.as_dict)[q]))) \/ Say("state", k, "as_dict-keeps-namespace")
+     /\ (Plain(T(ob.as_dict)) => (T(ob.rt) = T(ob.as_dict) /\ NoDictLeft(T(ob.d2n)))) \/ Say("state", k, "dict-roundtrip")
      \* the conversions return copies (observed after everything reachable from a FIRST conversion was modified)
      /\ T(ob.d2n_second) = DictToNamespace(AsDict(t)) \/ Say("state", k, "dict_to_namespace-shares")
      /\ T(ob.d2n_input_after) = AsDict(t) \/ Say("state", k, "dict_to_namespace-modifies-input")
